@@ -9,7 +9,7 @@ from . import core
 
 SEEDED = os.path.join(core.VERIF, 'seeded')
 # checks to run per seed: its own property first, then others known to see the same code
-ALSO = {'C02': ['C06'], 'C15': ['C06']}
+ALSO = {'C02': ['C06', 'C05'], 'C15': ['C06'], 'C04': ['C13'], 'C01': ['C02']}
 
 
 def sh(cmd, **kw):
